@@ -170,3 +170,43 @@ Proof.
   intros H. apply (H 1). apply (spath_cons _ 1 2 1); [reflexivity|].
   apply (spath_cons _ 2 3 1); [reflexivity|]. apply spath_one. reflexivity.
 Qed.
+
+(* ==== all byte-string names (after fix F26) ====
+   The harness gives the Go code arbitrary distinct byte strings, the empty one included, and the model runs
+   on the rank of each name (>= 0); FindCycle's "no parent" mark is -1 in the model, the [root] flag in the Go
+   code.  For operation sequences that name nodes by ranks the hypothesis "the mark is not a node" of the
+   FindCycle theorems above is PROVED, so nothing is assumed about names any more (Toposort/Names.v). *)
+From Herc Require Toposort.Names.
+
+Theorem C15_all_names_mark_never_a_node : forall ops,
+  Names.ranked ops = true -> Names.valid_graph_ops empty ops = true ->
+  is_node (fst (run empty ops)) nobody = false.
+Proof. exact Names.ranked_nobody. Qed.
+Print Assumptions C15_all_names_mark_never_a_node.
+
+Theorem C15_all_names_cycle : forall ops,
+  Names.ranked ops = true -> Names.valid_graph_ops empty ops = true ->
+  forall s, s = fst (run empty ops) ->
+  forall ord, (forall n l, Permutation (ord n l) l) -> forall seed,
+    (find_cycle ord s seed <> [] <-> spath s seed seed) /\
+    (find_cycle ord s seed <> [] ->
+       cycle_ok s seed (find_cycle ord s seed) = true /\
+       exists r, find_cycle ord s seed = seed :: r /\ is_walk s (seed :: r ++ [seed])).
+Proof. exact Names.ranked_cycle_correct. Qed.
+Print Assumptions C15_all_names_cycle.
+
+Theorem C15_all_names_sort : forall ops,
+  Names.ranked ops = true -> Names.valid_graph_ops empty ops = true -> dirty [] ops = [] ->
+  forall s, s = fst (run empty ops) ->
+  exists L ok, snd (step s OSort) = RSort (SortOk L ok) /\
+    (ok = true <-> acyclic s) /\
+    (ok = true -> Permutation L (node_list s) /\ forall a b, has_edge s a b = true -> before a b L).
+Proof. exact Names.ranked_sort_correct. Qed.
+Print Assumptions C15_all_names_sort.
+
+(* non-vacuity: the witness of finding F26 (rank 0 = the empty name, rank 1 = "s"; s -> "" -> s) *)
+Example ex_f26_witness :
+  Names.ranked Names.f26_witness = true /\ Names.valid_graph_ops empty Names.f26_witness = true /\
+  find_cycle id_ord (fst (run empty Names.f26_witness)) 1 = [1; 0] /\
+  find_cycle id_ord (fst (run empty Names.f26_witness)) 0 = [0; 1].
+Proof. exact Names.f26_witness_in_domain. Qed.
